@@ -312,13 +312,32 @@ def JSt.dirOK (j : JSt) (u pw : Nat) : Bool :=
 def splitArrow (fs : List String) : List String × List String :=
   (fs.takeWhile (· ≠ "=>"), (fs.dropWhile (· ≠ "=>")).drop 1)
 
+/-! The judge implements the statement of C07 clause by clause and nothing else. The statement
+constrains ACCEPTANCES and what a DIRECTORY VERDICT does to the cached hash; it says nothing about how
+a refusal is delivered. So every result other than `A` (401, 500, any other status, an error return, a
+panic) is a refusal, and a refusal never needs justification:
+
+* (S1) "accepted only if the configured backend accepts it for that (normalised) user": an `A` while a
+  (server, pattern) pair gives verdicts needs the directory's verdict to be accept — ground truth of
+  the harness, whether or not the code asked; an `A` must be granted to the normalised user (`W`); the
+  empty password is never accepted.
+* (S2) "acceptance refreshes": an `A` on a directory acceptance leaves the fresh record (primary writable).
+* (S3) "rejection of the cached password evicts": when the directory actually answered this login with a
+  rejection (its own bind record) and the consulted store held a valid record of that password, the
+  primary's row is gone afterwards (primary writable) — however the refusal is reported to the client.
+* (S4) "only when no server answers may a cached hash decide, and then only …": an `A` while nothing
+  gives verdicts needs the consulted row to verify, for this user, type, password, unexpired, and a
+  directory-confirmed login ≤ 96 h ago.
+
+Not demanded (a maintainer may change it): that a login the directory accepts is accepted by keymaster,
+which status a refusal has, whether an unusable store is reported as 401 or 500. Those differences show
+as a model/implementation disagreement (broken tie, no failing input), not as a violation. -/
 def judgeLogin (j : JSt) (u pw : Nat) (res tr : String) (after : Rows) : String :=
   let before := j.rows
   let consulted := before.get (j.prim == .up) u
   let accepted := res == "A"
   let dirOK := j.dirOK u pw
   if res == "W" then "viol granted-other-identity the login was granted to a name other than the normalised user"
-  else if res != "A" && res != "R" then s!"viol login-error result {res}"
   else if pw == 0 && accepted then "viol empty-password-accepted the empty password was accepted"
   else if (traceVerdict tr).isSome && traceVerdict tr != some dirOK then
     s!"viol harness-directory-inconsistent bind trace {tr} but the directory holds {repr (j.dir u)}"
@@ -326,14 +345,15 @@ def judgeLogin (j : JSt) (u pw : Nat) (res tr : String) (after : Rows) : String 
   | some v =>
     -- some (server, bind pattern) pair gives verdicts (ground truth of the harness, whether or not the
     -- code asked it): the first verdict in loop order is final
-    if accepted != v then
-      s!"viol dir-verdict-overridden a server was answering (directory verdict {if v then "accept" else "reject"}, binds seen: {tr}) but the login was {res}"
-    else if v && j.prim != .down &&
+    if accepted && !v then
+      s!"viol dir-verdict-overridden a server was answering (directory verdict reject, binds seen: {tr}) but the login was {res}"
+    else if accepted && v && j.prim != .down &&
         !(match after.get true u with
           | some r => r.ok && r.subj == u && r.pw == pw && r.type == Spec.pwType && r.e == cacheH && r.c == cacheH
           | none => false) then
       "viol accept-not-refreshed directory accepted but the primary holds no fresh record (now + cache duration) for this user and password"
-    else if !v && j.prim != .down && (consulted.map (validFor u pw) == some true) && (after.get true u).isSome then
+    else if traceVerdict tr == some false && j.prim != .down && (consulted.map (validFor u pw) == some true) &&
+        (after.get true u).isSome then
       "viol rejected-cached-not-evicted directory rejected the cached password but the record is still in the primary"
     else "ok"
   | none =>
@@ -369,7 +389,7 @@ def judgeStep (j : JSt) (fs : List String) : JSt × String :=
         | some u, some pw =>
           let verdict := judgeLogin j u pw res tr after
           let conf := traceVerdict tr == some true && j.dirOK u pw
-          let rejected := j.answers && !j.dirOK u pw
+          let rejected := traceVerdict tr == some false
           let evict := rejected && j.prim == .up &&
                        ((j.rows.get true u).map (validFor u pw) == some true) && (after.get true u).isNone
           let lost := rejected && j.prim != .up &&
@@ -389,7 +409,7 @@ def judgeStep (j : JSt) (fs : List String) : JSt × String :=
         -- NORMALISED user (the file entry under the lower-cased name)
         match u.toNat?, pw.toNat?, (u.toNat?.bind fun u => typedName u v) with
         | some _, some pw, some name =>
-          if res != "A" && res != "R" then (j', s!"viol login-error result {res}")
+          if res == "W" then (j', "viol granted-other-identity the login was granted to a name other than the normalised user")
           else if res == "A" && !((htFile (asciiLower name)).map (fun e => e.bcrypt2y && e.matchesPw == pw) == some true) then
             (j', s!"viol backend-rejects-normalised-user accepted although the htpasswd file has no matching entry for the normalised name (typed {String.ofList name})")
           else (j', "ok")
